@@ -709,6 +709,11 @@ def gen_matrix_cases(start_id=0):
         for host in ["input", "Comp", "div"]:
             add("<%s v-custom={%s} />" % (host, value), k); k += 1
             add("<%s v-model={%s} />" % (host, value), k); k += 1
+    # attributes written after v-models keep their places
+    for vm in ['[[val, "a"], [b, "b"]]', '[[val, "a"]]', "[[val]]"]:
+        add("<Comp first={fn()} v-models={%s} second={g()} third={h()} fourth={fn(a)} />" % vm, k); k += 1
+        add("<Comp v-models={%s} {...g()} onChange={h()} />" % vm, k); k += 1
+        add("<input id={fn()} v-models={%s} title={g()} {...foo.bar} class={h()} />" % vm, k); k += 1
     for host in ["div", "Comp"]:
         for name in ["v-custom", "vCus", "v-custom:arg", "v-custom_m", "v-custom:arg_m_n", "v-validate", "v-show", "vShow:x_y",
                      "vXAxis", "v-BToggle:left_once", "vUIState_m"]:
@@ -1252,8 +1257,40 @@ def gen_cyclic_cases(start_id=0):
     return out
 
 
-def gen_types_cases(seed, n, start_id=0):
+def gen_atom_cases(start_id=0):
+    """every atom type of the table once alone and once in a union, as a required and as an optional prop:
+    deterministic, so no atom's treatment is left to chance"""
     out = []
+    for i, a in enumerate(ATOM_TYPES):
+        tags = set()
+        if a == "1n":
+            tags.add("bigint_lit")
+        if a in ("any", "unknown", "Obj0[string]"):
+            tags.add("any")
+        if a == "{}":
+            tags.add("empty_obj")
+        if a in ("J1['a']", "J1['a' | 'b']"):
+            tags.add("inherited_index")
+        if a in ("Obj1['k']['size']", "Obj1['k']['n']['length']", "(typeof SIZES)[number]", "string[]['length']"):
+            tags.add("unres_index")
+        k = ATOM_KINDS.get(a)
+        ku = kinds_union(k, {"regexp"})
+        M = [("p", False, a, "prop", k, sorted(tags)), ("q", True, "(%s) | RegExp" % a, "prop", ku, sorted(tags | {"union"}))]
+        src = "\n".join(["import { defineComponent, SetupContext } from 'vue';",
+                         "let Comp2; const base = {}; const props = {}; const dflt = {}; const dyn = 'k'; function makeOpts() { return {} } const foo = { bar: 1 };",
+                         TYPE_PRELUDE,
+                         "export default defineComponent((props: { p: %s; q?: (%s) | RegExp }) => () => null);" % (a, a)]) + "\n"
+        truth = {"props": [[m[0], not m[1], sorted(m[4]) if isinstance(m[4], set) else m[4], m[3], m[2], m[5]] for m in M],
+                 "emits": [], "augmentable": True, "prov": "named", "first": "typed", "second": "none", "setup": "arrow", "optarg": None,
+                 "spreadargs": False, "declkind": 4, "defaults": {"form": "none", "per_key": {}}, "getter_in_partial": False}
+        out.append({"id": start_id + i, "src": src, "syntax": "tsx", "options": '{"resolveType": true}', "stream": "types",
+                    "feat": ["atom-sweep", "atom:" + a], "truth": truth})
+    return out
+
+
+def gen_types_cases(seed, n, start_id=0):
+    out = gen_atom_cases(start_id)
+    start_id += len(out)
     for i in range(n):
         g = TGen(Rng(seed * 7368787 + i))
         if i % 6 == 4:
